@@ -45,6 +45,34 @@ CLAIMS = {
                 'termination of the fuelled model under a positive limit (C09_terminates) is not proved; CPython recursion limit out of scope. No axioms.',
         'ref': 'DESIGN.md section 5 C09',
     },
+    'C03': {
+        'text': 'Theorems in Coq about the evaluator model (Model/Interp.v eval/binop, a transliteration of evaluate_expression), for every library, options and '
+                'world: an operator applied to a type pair outside the documented table (written out as data) yields null; a supported arithmetic pair yields a '
+                'number or null; the six relational operators are exactly the sign tests of the value comparison; && and || return an operand and do not evaluate '
+                'the right operand when the left decides; every other operator evaluates left then right exactly once; if() evaluates only the selected branch; call '
+                'arguments are evaluated once, left to right; an unshadowed built-in alias resolves to the library function of the GENERATED alias table and calling '
+                'it is calling the target; a bound name beats the built-in. The model is run inside Coq against the implementation on the full operator x type-pair '
+                'matrix and on random effect-logging trees; an independent reference evaluator (value AND log order/laziness) and an alias-vs-target probe over the '
+                'whole EXPRESSION_FUNCTION_MAP are the direct oracle.',
+        'note': 'trusted: Coq kernel/vm_compute; transliterations of runtime.py / value.py and Python arithmetic (Model/Arith.v on SpecFloat/Z) validated by the '
+                'correspondence; payloads the model declines (libm pow on non-integral operands, long-fraction repr, JSON/ISO text inside string concatenation) are '
+                'oracle-only and counted in the evidence; reference evaluator in the harness. No axioms.',
+        'ref': 'DESIGN.md section 5 C03',
+    },
+    'C05': {
+        'text': 'Theorems in Coq about the interpreter model with an outcome constructor for "any other Python exception in flight": for EVERY library behaviour (it may '
+                'raise anything on any arguments), every program, options and world, that outcome never comes out of expression evaluation or statement execution '
+                '(mutual induction over eval/exec; premise: the parser does not let a host exception escape on an included text - C06); the operator block never '
+                'raises; a failed call evaluates to null or the documented failure value, is logged in debug mode, and evaluation continues with the world the call '
+                'left. The Python arithmetic that can raise (zero divisors, overflow, huge-int to float, int digit limit, complex results) is modelled in Model/Arith.v '
+                'and run inside Coq against the implementation on an adversarial operand matrix; on the implementation the escaping exception class is checked for '
+                'every operator x adversarial pair, EVERY library function x random arguments of every type (20k calls quick), raising host functions, '
+                'evaluate_expression without options, and generated programs on adversarial globals.',
+        'note': 'trusted: Coq kernel/vm_compute; transliteration validated by the correspondence; library functions are covered by the universally quantified lib on '
+                'the model side and by the oracle on the code side (testing, stated as such). Outside the quantifier and only counted: CPython recursion limit (F14) and '
+                'single operations that do not return, e.g. int ** huge int (F22). No axioms; premise parser_contained is a visible hypothesis.',
+        'ref': 'DESIGN.md section 5 C05',
+    },
 }
 
 PENDING = 'check under construction in this session (model and proofs in progress; see DESIGN.md section 5) - not claimed until it passes on the unchanged tree'
